@@ -93,6 +93,11 @@ type World struct {
 	// wantPick: while an event that names its pick is applied, every other eligible tag is passed over
 	wantPick string
 	epoch    int
+	// conversion jobs begun so far and the arguments of the last one
+	convBegins   int
+	lastConvArgs []any
+	// DetachedRuns: a conversion job was started for a converter that no tag had attached at that moment
+	DetachedRuns []string
 }
 
 // freeMode: the gates are switched off.  A point does nothing that synchronises goroutines with
@@ -239,6 +244,10 @@ func (w *World) point(name string, args []any) {
 	case "begin":
 		j := &Job{Kind: kind, Seq: w.jobSeq, Epoch: w.epoch, Gate: "begin", Args: args, BeginArgs: args, release: make(chan struct{}), InputDigest: inputDigest(args)}
 		w.jobSeq++
+		if kind == "convert" {
+			w.convBegins++
+			w.lastConvArgs = args
+		}
 		if kind == "tag" && len(args) != 0 {
 			if n, ok := args[0].(string); ok {
 				w.tagBegins++
@@ -346,6 +355,11 @@ func NewWorldIn(dir, converterBin string, populate bool) (*World, error) {
 	if populate {
 		for name, dgs := range Captures {
 			if err := WriteCapture(filepath.Join(w.Staging, name), dgs); err != nil {
+				return nil, err
+			}
+		}
+		for name, b := range RawCaptures {
+			if err := os.WriteFile(filepath.Join(w.Staging, name), b, 0o644); err != nil {
 				return nil, err
 			}
 		}
